@@ -437,11 +437,157 @@ def temp_def_use(cr: CheckRun, en) -> None:
     tf.unlink()
 
 
+# ------------------------------------------------------------------------------------------------ machine level: N+M = N then M
+def _machine_program(rnd: random.Random):
+    """a resident program for the whole machine: a main loop that enables interrupts and raises / clears requests itself, a
+    handler that returns, and both timers running with small periods - so that requests become deliverable in the middle of a
+    multi-instruction batch without any new external event"""
+    import machine_harness as mh
+    main = [{"k": "SETIMR", "v": rnd.choice([0x83, 0x81, 0x82, 0x8B])}]
+    for _ in range(rnd.randint(4, 9)):
+        r = rnd.random()
+        if r < 0.25:
+            main.append({"k": "RAISE", "m": rnd.choice([[0], [1], [0, 1], [1, 0]])})
+        elif r < 0.35:
+            main.append({"k": "CLRISR", "m": [rnd.choice([0, 1])]})
+        elif r < 0.45:
+            main.append({"k": "SETIMR", "v": rnd.choice([0x83, 0x80, 0x03, 0x81])})
+        else:
+            main.append({"k": rnd.choice(["ALU", "NOP", "ALU"])})
+    code = []
+    for ins in main:
+        code += mh.encode(ins)
+    code += mh.encode({"k": "JRBACK", "v": len(code) + 2})
+    handler = [{"k": "NOP"}, {"k": "ALU"}]
+    if rnd.random() < 0.5:
+        handler.append({"k": "CLRISR", "m": [rnd.choice([0, 1])]})
+    handler.append({"k": "RETI"})
+    hcode = []
+    for ins in handler:
+        hcode += mh.encode(ins)
+    pm, ps = rnd.choice([(0, 0), (3, 3), (5, 5), (4, 6), (7, 0), (0, 5), (6, 9)])
+    return code, hcode, pm, ps
+
+
+def _machine_runs(impl: str, vh, prog, total: int, cuts):
+    """final projections of: one batch of `total` instructions (reference), `total` single steps, and a two-batch split per cut"""
+    import machine_harness as mh
+    code, hcode, pm, ps = prog
+
+    def fresh(tag):
+        m = mh.RustMachine(vh, name=tag) if impl == "rs" else mh.PyMachine()
+        m.poke(mh.MAIN, code)
+        m.poke(mh.VEC, hcode)
+        if pm or ps:
+            m.event({"ev": "TimerCfg", "pm": pm, "ps": ps})
+        return m
+
+    def batch(m, n):
+        if n <= 0:
+            return
+        if impl == "rs":
+            vh.call("rt.step", name=m.name, n=n)
+        else:
+            m.emu.run(n)
+
+    def proj(m):
+        if impl == "rs":
+            d = vh.call("rt.dump", name=m.name, ranges=[[mh.STACK - 24, 24]])
+            regs = {k: int(d["regs"][k]) for k in ARCH}
+            cells = [[0x1000FB, d["imem"][0xFB]], [0x1000FC, d["imem"][0xFC]]] + [[mh.STACK - 24 + i, v] for i, v in enumerate(d["mem"][str(mh.STACK - 24)])]
+            o = vh.call("rt.obs", name=m.name)
+            vh.call("rt.drop", name=m.name)
+        else:
+            from pce500.memory import INTERNAL_MEMORY_START
+            r = m.emu.cpu.regs
+            regs = {k: int(r.get(getattr(m.R, k))) for k in ARCH}
+            rb = m.emu.memory.read_byte
+            cells = [[0x1000FB, rb(INTERNAL_MEMORY_START + 0xFB) & 0xFF], [0x1000FC, rb(INTERNAL_MEMORY_START + 0xFC) & 0xFF]] + \
+                    [[mh.STACK - 24 + i, rb(mh.STACK - 24 + i) & 0xFF] for i in range(24)]
+            o = m.obs()
+        cells += [[0x200000, int(o["tot"])], [0x200001, int(o["inint"])], [0x200002, int(o["cyc"]) % (1 << 30)], [0x200003, int(o["instr"])]]
+        return {"regs": regs, "len": 0, "err": 0, "pw": "run" if o["pw"] == "run" else "low", "fin": cells, "nsteps": total}
+
+    out = []
+    m = fresh("w"); batch(m, total); out.append(("fresh", proj(m)))
+    m = fresh("s")
+    for _ in range(total):
+        batch(m, 1)
+    out.append(("single-steps", proj(m)))
+    for n in cuts:
+        m = fresh("c"); batch(m, n); batch(m, total - n); out.append((f"split-{n}+{total - n}", proj(m)))
+    return out
+
+
+def _mach_job(arg):
+    shard_id, seeds = arg
+    sys.path.insert(0, str(vlib.VERIF / "harness" / "py"))
+    vlib.setup_repo_imports()
+    vh = Vh()
+    recs = []
+    try:
+        for gseed in seeds:
+            rnd = random.Random(gseed)
+            prog = _machine_program(rnd)
+            total = rnd.choice([12, 20, 33])
+            cuts = sorted(rnd.sample(range(1, total), 4))
+            for impl in ("rs", "py"):
+                runs = _machine_runs(impl, vh, prog, total, cuts)
+                ref = None
+                for variant, res in runs:
+                    r = dict(res)
+                    r.update({"id": shard_id * 10_000_000 + len(recs) + 1, "group": f"{impl}-mach{gseed}", "kind": "split", "impl": impl, "variant": "fresh" if variant == "fresh" else variant,
+                              "ref": 0, "replay": {"kind": "mach", "impl": impl, "seed": gseed}})
+                    recs.append(r)
+                    if variant == "fresh":
+                        ref = len(recs)
+                    r["ref"] = ref
+    finally:
+        vh.close()
+    d = vlib.scratch("C07")
+    tf = d / f"mach-{shard_id}.ndjson"
+    vlib.write_ndjson(tf, [{k: v for k, v in r.items() if k != "replay"} for r in recs])
+    res = run_tlc(SD, "JudgeHistory", "JudgeHistory.cfg", workers=1, env={"TRACE_FILE": str(tf)}, tag=f"C07-mach-{shard_id}", jvm=["-Xss128m"], heap="2g", timeout=3000)
+    verdict = None
+    for v in res.printed():
+        if isinstance(v, tuple) and v and v[0] == "JUDGE":
+            verdict = v
+    if verdict is None:
+        raise MachineryError(f"JudgeHistory did not complete (machine shard {shard_id}):\n{res.out[-2000:]}")
+    tf.unlink()
+    byid = {r["id"]: r for r in recs}
+    bad = []
+    for x in verdict[3]:
+        r = byid[int(x[0])]
+        ref = recs[r["ref"] - 1]
+        bad.append((str(x[1]), r["impl"], r["variant"], r["replay"], {k: r[k] for k in ("regs", "pw", "fin")}, {k: ref[k] for k in ("regs", "pw", "fin")}))
+    return len(recs), int(verdict[2]), bad
+
+
+def machine_split(cr: CheckRun) -> None:
+    """'Running a program for N+M steps is indistinguishable from running it N steps and then M steps' on the whole machines:
+    CoreRuntime::step(k) / PCE500Emulator.run(k) batches against single steps and two-batch splits, with interrupts and timers live."""
+    n = 96 if cr.tier == "quick" else 1500
+    rnd = random.Random(cr.seed + 17)
+    seeds = [rnd.getrandbits(30) for _ in range(n)]
+    nsh = min(vlib.NCPU, 16)
+    results = vlib.pmap(_mach_job, [(100 + i, seeds[i::nsh]) for i in range(nsh)])
+    for nrec, ngr, bad in results:
+        cr.cov["programs"] = cr.cov.get("programs", 0) + nrec
+        cr.cov["machine_split_groups"] = cr.cov.get("machine_split_groups", 0) + ngr
+        for clause, impl, variant, rep, got, ref in bad:
+            v = "split" if variant.startswith("split-") else variant
+            cr.violation(f"{clause}:{impl}:machine-{v}", f"{impl} machine, program seed {rep['seed']}: the run '{variant}' ends in {got}, one batch of the same length in {ref}", rep)
+    cr.mark("machine-split")
+
+
 def run(cr: CheckRun) -> None:
     eh, en = c04._imports()
     vlib.build_vh()
     temp_def_use(cr, en)
     cr.mark("defuse")
+    machine_split(cr)
+    mach_programs = cr.cov.get("programs", 0)
     groups, hist_encs, straight = make_groups(en, cr.tier, cr.seed)
     nsh = vlib.NCPU * 2
     results = vlib.pmap(_job, [(i, groups[i::nsh], hist_encs, straight, cr.seed) for i in range(nsh)])
@@ -452,9 +598,9 @@ def run(cr: CheckRun) -> None:
         for clause, impl, variant, rep, got, ref in r[2]:
             what = bytes(rep["bytes"]).hex() if rep.get("bytes") else f"program seed {rep['seed']}"
             cr.violation(f"{clause}:{impl}:{variant}", f"{impl} core, {what}: the run '{variant}' ends in {got}, the fresh run from the same architectural state in {ref}", rep)
-    cr.cov["programs"] = nrec
-    cr.cov["traces_validated_against_impl"] = nrec
-    cr.cov["evaluations"] = nrec
+    cr.cov["programs"] = nrec + mach_programs
+    cr.cov["traces_validated_against_impl"] = nrec + mach_programs
+    cr.cov["evaluations"] = nrec + mach_programs
     cr.cov["distinct_nontrivial"] = ngroups
     cr.cov["explained_by_semantics"] = {"fresh_python_runs": sum(r[4] for r in results), "not_explained (C04 findings)": sum(r[5] for r in results)}
     cr.cov["rule"] = "groups = (core, probe encoding or program, architectural state); runs = histories / splits of a group, each compared with the group's fresh run"
@@ -483,6 +629,11 @@ def replay(path: str) -> int:
         print(json.dumps(g))
         print("DefBeforeUse violated" if res.invariant_violated else "DefBeforeUse holds")
         return 1 if res.invariant_violated else 0
+    if rec.get("kind") == "mach":
+        r = _mach_job((0, [rec["seed"]]))
+        for b in r[2]:
+            print(b[0], b[1], b[2], b[4], b[5])
+        return 1 if r[2] else 0
     seed = rec["seed"]
     encs = en.valid_structures("quick", 1)
     hist_encs = [e for e in encs if en.opcode_of(e) not in (0xDE, 0xDF, 0xFF)]
